@@ -176,6 +176,39 @@ def reach_program(rnd):
     return pre + [t] + mid + [L('T:', 'label', 'T'), nop()]
 
 
+def reach_align_program(rnd):
+    """a backward transfer whose span holds odd-length strings each re-aligned by `align 4` and whose final distance sits
+    on, or just past, the reach of the compressed form: the compression decision is taken while the aligns still count
+    their full size, so it must hold in the final layout (nothing the assembler itself compressed may fail to reach)"""
+    L = progs.Ln
+    nop = lambda: L('    addi x0 x0 0', 'instr', 'addi', [('r', 0), ('r', 0), ('i', 0)])
+    wide = lambda: L('    lui x5, 0x12345', 'instr', 'lui', [('r', 5), ('i', 0x12345)])
+    kind = rnd.choice(['bnez', 'beqz', 'beq0', 'j', 'jal1'])
+    reach = 256 if kind in ('bnez', 'beqz', 'beq0') else 2048
+    npairs = rnd.randrange(1, 5)
+    pairs, psize = [], 0
+    for _ in range(npairs):
+        n = rnd.choice([1, 1, 3, 5, 7, 1])
+        pairs += [L('    string ' + 'z' * n, 'string', 'string', ['z' * n]), L('    align 4', 'align', 'align', [4])]
+        psize += (n + 3) // 4 * 4
+    k = 2 * rnd.randrange(0, 6)                      # compressible instructions (2 bytes each in the end), an even number
+    D = reach + rnd.choice([-4, -2, 0, 2, 4, 6, 8])  # final distance label -> transfer
+    nwide = max(0, (D - psize - 2 * k) // 4)
+    k += (D - psize - 2 * k - 4 * nwide) // 2        # make the sum exact
+    r = 8 + rnd.randrange(8)
+    if kind == 'j':
+        t = L('    j T', 'pjump', 'j', [], 'T')
+    elif kind == 'jal1':
+        t = L('    jal x1, T', 'jal', 'jal', [1], 'T')
+    elif kind == 'beq0':
+        t = L('    beq x%d, x0, T' % r, 'branch', 'beq', [r, 0], 'T')
+    else:
+        t = L('    %s x%d, T' % (kind, r), 'pbranch1', kind, [r], 'T')
+    body = [wide() for _ in range(nwide)]
+    rnd.shuffle(body)
+    return [L('    align 4', 'align', 'align', [4]), L('T:', 'label', 'T')] + pairs + body + [nop() for _ in range(k)] + [t, nop()]
+
+
 def one_case(args):
     seedv, idx, tier = args
     os.environ['VERIF_SEED'] = str(seedv)
@@ -184,6 +217,8 @@ def one_case(args):
     if idx % 10 == 9:
         from harness import layout_check
         lines = layout_check.far_program(rnd)
+    elif idx % 20 == 14:
+        lines = reach_align_program(rnd)
     elif idx % 10 == 4:
         lines = reach_program(rnd)
     else:
@@ -220,6 +255,10 @@ def evaluate(asm, lines, idx=0, seeds=None):
         if ln.kind not in EXEC_KINDS:
             if bn != bc and ln.kind != 'align':
                 out['problems'].append(('C04', 'line {} {!r}: data bytes differ with -c: {} vs {}'.format(i, ln.text.strip(), bn.hex(), bc.hex())))
+            if ln.kind == 'align' and bc.strip(b'\0') and not bn.strip(b'\0'):
+                # the amount of padding may differ between the modes, what it consists of may not (it is the zero
+                # terminator behind a string, the gap in a table)
+                out['problems'].append(('C04', 'line {} {!r}: padding is {} without -c and {} with -c'.format(i, ln.text.strip(), bn.hex() or '(none)', bc.hex())))
             continue
         nn, ncn = len(lay[False].by_line.get(i, [])), len(lay[True].by_line.get(i, []))
         elig = None
